@@ -35,7 +35,8 @@ def applicable_faults(prog, kinds=None, extra=()):
             out.append({'kind': 'unserialisable_out_arg', 'at': idx})
             out.append({'kind': 'unserialisable_ret', 'at': idx})
         if s['t'] in ('in', 'out'):
-            for k in ('body_discard', 'body_discard_raise', 'body_force', 'body_raise', 'body_interrupt'):
+            for k in ('body_discard', 'body_discard_raise', 'body_force', 'body_raise', 'body_interrupt',
+                      'body_interrupt_swallowed'):
                 out.append({'kind': k, 'at': idx})
     for idx in range(len(prog['steps']) + 1):
         for k in ('op_discard', 'op_force', 'op_raise', 'op_interrupt'):
@@ -90,6 +91,9 @@ def apply_faults(prog, faults):
             s['beh'] = 'raise'
         elif k == 'body_interrupt':
             s['beh'] = 'interrupt'
+        elif k == 'body_interrupt_swallowed':
+            s['beh'] = 'interrupt'
+            s['swallow_interrupt'] = True
     for f in sorted([f for f in faults if f['kind'] in INSERTS], key=lambda f: -f['at']):
         p['steps'].insert(f['at'], dict(INSERTS[f['kind']]))
     for f in faults:
@@ -110,7 +114,8 @@ def compatible(f1, f2):
         return False
     if 'at' in f1 and 'at' in f2 and f1['at'] == f2['at'] and f1['kind'] not in INSERTS and f2['kind'] not in INSERTS:
         a, b = f1['kind'], f2['kind']
-        body = {'body_discard', 'body_discard_raise', 'body_force', 'body_raise', 'body_interrupt'}
+        body = {'body_discard', 'body_discard_raise', 'body_force', 'body_raise', 'body_interrupt',
+                'body_interrupt_swallowed'}
         if a in body and b in body:
             return False
         if {a, b} == {'unencodable_arg', 'unserialisable_out_arg'}:
@@ -158,7 +163,7 @@ def model_effects(prog):
                 discarded = True
             if s['beh'] == 'force':
                 forced_at.append(s['sid'])
-            if s['beh'] == 'interrupt':
+            if s['beh'] == 'interrupt' and not s.get('swallow_interrupt'):
                 terminated = 'interrupt'
                 break
     if terminated is None:
